@@ -49,6 +49,7 @@ def run(ctx, rep):
     r4(ctx, prog, ev, rep, slice_fn, slice_args)
     r5(ctx, prog, ev, rep, slice_fn, index_fn)
     r6(prog, ev, rep, slice_fn, slice_args, index_fn, index_args)
+    r7(prog, ev, rep, slice_fn, slice_args)
 
 
 def find_handlers(prog, ev, rep):
@@ -303,6 +304,7 @@ def norm(prog, t, names, len_of, depth=0):
     return ("?", k)
 
 
+RID = ["C11-R6"]   # rule id under which the slice/index agreement is reported (C01 and C02 share the analysis)
 EV = [None]      # evaluator used by norm() to apply closures handed to Option::map
 
 
@@ -615,6 +617,10 @@ def range_walks(prog, ev, sites, names, arr, abstain):
             rev = True; k += 1
         if k < len(names_) and names_[k] == "step_by":
             n_term = stages[k][1][0]; k += 1
+            if k < len(names_) and names_[k] == "rev":
+                out.append({"kind": "misanchored", "guard": _guard_of(prog, pc, names, arr), "where": T.loc(s["node"]), "fetch": True,
+                            "resolve": None})
+                continue
         rest = names_[k:]
         if not rest or rest[-1] != "collect" or rest[0] not in ("filter_map", "map") or any(x not in ("map", "filter_map", "collect") for x in rest):
             abstain.append("range pipeline %s is not [rev] [step_by] filter_map|map .. collect" % names_); continue
@@ -628,15 +634,20 @@ def range_walks(prog, ev, sites, names, arr, abstain):
                     if tr is not None and not (r[0] >= tr[0] and r[1] <= tr[1]):
                         wraps.append(str(x)[:80])
         marker = Tm("param", (95, "position"))
-        body = ev.apply(stages[k][1][0], [marker])
         fetch = False
-        for x in subterms(body):
-            if x.k == "call" and (x.a[0] == "core::slice::<impl [T]>::get" or x.a[0].endswith("Index<I>>::index")) and len(x.a) == 3:
-                ix = x.a[2]
-                while ix.k == "cast":
-                    ix = ix.a[1]
-                if ix == marker:
-                    fetch = True
+        val = marker
+        for st in stages[k:-1]:
+            body = ev.apply(st[1][0], [val])
+            for x in subterms(body):
+                if x.k == "call" and (x.a[0] == "core::slice::<impl [T]>::get" or x.a[0].endswith("Index<I>>::index")) and len(x.a) == 3:
+                    ix = x.a[2]
+                    while ix.k == "cast":
+                        ix = ix.a[1]
+                    if ix == marker:
+                        fetch = True
+            val = ev.mkproj(body, "Option::Some.0") if st[0] == "filter_map" else body
+            while val.k == "cast":
+                val = val.a[1]         # `idx as usize` of a position that is in range anyway
         an, bn = norm(prog, a, names, arr), norm(prog, b, names, arr)
         nn = norm(prog, n_term, names, arr) if n_term is not None else C(1)
 
@@ -655,6 +666,9 @@ def range_walks(prog, ev, sites, names, arr, abstain):
     return out
 
 
+_SELFCHECK = {}
+
+
 def region_selfcheck(rep):
     """the region analysis must call known-equivalent rewrites equal and known-different ones different, on every run"""
     m = rfc_model()
@@ -671,20 +685,53 @@ def region_selfcheck(rep):
     # different: pos init clamped to len - 1
     df_pos = (mk("min", [mk("max", [rfc_norm(("default", S, C(0))), C(0)]), mk("add", [LEN, C(-1)])]), m["pos"]["bound"])
     from vflib.intervals import IJSON
-    res = []
+    res = _SELFCHECK.get("res") or []
+    for name, d, g, expect in ((("eq_pos", "pos", eq_pos, "equal"),) if not res else ()) + tuple(x for x in (("eq_neg", "neg", eq_neg, "equal"), ("df_neg", "neg", df_neg, "different"), ("df_pos", "pos", df_pos, "different")) if not res):
+        try:
+            r = region_compare(d, g, (m[d]["init"], m[d]["bound"]), IJSON)[0]
+        except pwl.Undecided as u:
+            r = "undecided: %s" % u
+        res.append((name, r == expect, r))
+    _SELFCHECK["res"] = res
+    rep.control(RID[0], all(ok for _, ok, _ in res), "region analysis self-check: 2 equivalent rewrites proved equal, 2 deviating ones separated with a witness (%s)" % ", ".join("%s=%s" % (n, r) for n, _, r in res))
+    return
     for name, d, g, expect in (("eq_pos", "pos", eq_pos, "equal"), ("eq_neg", "neg", eq_neg, "equal"), ("df_neg", "neg", df_neg, "different"), ("df_pos", "pos", df_pos, "different")):
         try:
             r = region_compare(d, g, (m[d]["init"], m[d]["bound"]), IJSON)[0]
         except pwl.Undecided as u:
             r = "undecided: %s" % u
         res.append((name, r == expect, r))
-    rep.control("C11-R6", all(ok for _, ok, _ in res), "region analysis self-check: 2 equivalent rewrites proved equal, 2 deviating ones separated with a witness (%s)" % ", ".join("%s=%s" % (n, r) for n, _, r in res))
+    rep.control(RID[0], all(ok for _, ok, _ in res), "region analysis self-check: 2 equivalent rewrites proved equal, 2 deviating ones separated with a witness (%s)" % ", ".join("%s=%s" % (n, r) for n, _, r in res))
 
 
-def r6(prog, ev, rep, slice_fn, slice_args, index_fn, index_args):
-    rep.rule("C11-R6", "agreement with RFC 9535 2.3.4.2.2 / 2.3.3.2: sign guards, loop condition, increment, element fetch; first index "
+def shared_walk_rule(prog, ev, rep, rid, title):
+    """The slice/index agreement analysis reported under another property's rule id (C01: exactly the RFC's nodes; C02: index
+    order, descending for negative steps)."""
+    sp = prog.impl_method(Q, M + "Selector", "process")
+    from vflib.report import Report
+    tmp = Report("tmp")
+    h = find_handlers(prog, ev, tmp)
+    if h is None:
+        rep.rule(rid, title)
+        rep.unrecognised(rid, "handlers", prog.loc_of(sp), "slice/index handlers not found in the Selector dispatch")
+        return
+    slice_fn, index_fn, slice_args, index_args = h
+    r6(prog, ev, rep, slice_fn, slice_args, index_fn, index_args, rid=rid, title=title)
+
+
+def r6(prog, ev, rep, slice_fn, slice_args, index_fn, index_args, rid="C11-R6", title=None):
+    RID[0] = rid
+    try:
+        _r6(prog, ev, rep, slice_fn, slice_args, index_fn, index_args, title)
+    finally:
+        RID[0] = "C11-R6"
+
+
+def _r6(prog, ev, rep, slice_fn, slice_args, index_fn, index_args, title):
+    rep.rule(RID[0], title or (
+             "agreement with RFC 9535 2.3.4.2.2 / 2.3.3.2: sign guards, loop condition, increment, element fetch; first index "
              "and stop bound of both walks and the index selector's guards by region analysis of the piecewise-linear formulas "
-             "(equivalent rewrites are proved equivalent; deviations come with an integer witness)", floor=14)
+             "(equivalent rewrites are proved equivalent; deviations come with an integer witness)"), floor=14)
     EV[0] = ev
     okv, _sites = shared.all_int_slots_validated(prog, ev)
     from vflib.intervals import IJSON
@@ -716,7 +763,7 @@ def r6(prog, ev, rep, slice_fn, slice_args, index_fn, index_args):
             else:
                 # same shape as a sign test of the step? then it is wrong; else abstain
                 if guard is not None and shape(guard) == shape(model["pos"]["guard"]):
-                    rep.bad("C11-R6", "%s|guard" % slice_fn, where,
+                    rep.bad(RID[0], "%s|guard" % slice_fn, where,
                             "direction guard is `%s`; RFC 9535 distinguishes step > 0 and step < 0 with step = step.unwrap_or(1)" % show(guard))
                     decided += 1
                 else:
@@ -724,19 +771,26 @@ def r6(prog, ev, rep, slice_fn, slice_args, index_fn, index_args):
                 continue
             mdl = model[direction]
             key = "%s|%s" % (slice_fn, direction)
+            if w["kind"] == "misanchored":
+                rep.bad(RID[0], key + "/walk", where,
+                        "`(a..b).step_by(n).rev()` strides upward from a and is then reversed: it selects a, a+n, ... in reverse, whereas "
+                        "RFC 9535 2.3.4.2.2 strides from the other end; the two differ whenever the range length minus one is not a multiple of n "
+                        "(e.g. `[::-2]` on four elements selects indices 2,0 instead of 3,1)")
+                decided += 1
+                continue
             try:
                 init, bound, stepn, cond_problem = w["resolve"](direction)
             except pwl.Undecided as u:
                 abstain.append("%s walk: %s" % (direction, u)); continue
             if cond_problem:
-                rep.bad("C11-R6", key + "/condition", where, cond_problem + "; RFC 9535 requires `%s`" % mdl["cond"])
+                rep.bad(RID[0], key + "/condition", where, cond_problem + "; RFC 9535 requires `%s`" % mdl["cond"])
                 decided += 1
                 continue
             decided += 1
-            rep.ok("C11-R6", key + "/condition", where, mdl["cond"] + (" (inherent in the range)" if w["kind"] == "range" else ""))
+            rep.ok(RID[0], key + "/condition", where, mdl["cond"] + (" (inherent in the range)" if w["kind"] == "range" else ""))
             if init == mdl["init"] and bound == mdl["bound"]:
-                rep.ok("C11-R6", "%s/init" % key, where, show(mdl["init"])[:150])
-                rep.ok("C11-R6", "%s/bound" % key, where, show(mdl["bound"])[:150])
+                rep.ok(RID[0], "%s/init" % key, where, show(mdl["init"])[:150])
+                rep.ok(RID[0], "%s/bound" % key, where, show(mdl["bound"])[:150])
                 decided += 2
             else:
                 # not the RFC's text: decide by region analysis whether the two walks select the same indices for every
@@ -744,10 +798,10 @@ def r6(prog, ev, rep, slice_fn, slice_args, index_fn, index_args):
                 try:
                     res = region_compare(direction, (init, bound), (mdl["init"], mdl["bound"]), int_bounds)
                     if res[0] == "equal":
-                        rep.ok("C11-R6", "%s/init" % key, where, "differs textually from RFC 9535 but selects the same indices in all %d regions (%d emptiness queries)" % (res[1]["regions"], res[1]["queries"]))
-                        rep.ok("C11-R6", "%s/bound" % key, where, "same")
+                        rep.ok(RID[0], "%s/init" % key, where, "differs textually from RFC 9535 but selects the same indices in all %d regions (%d emptiness queries)" % (res[1]["regions"], res[1]["queries"]))
+                        rep.ok(RID[0], "%s/bound" % key, where, "same")
                     else:
-                        rep.bad("C11-R6", "%s/walk" % key, where,
+                        rep.bad(RID[0], "%s/walk" % key, where,
                                 "the %s-step walk does not select the elements RFC 9535 2.3.4.2.2 selects: %s" % ("positive" if direction == "pos" else "negative", res[1]))
                     rep.extra.setdefault("c11_r6_region_analysis", []).append({"direction": direction, "verdict": res[0], "stats": res[-1]})
                     decided += 2
@@ -755,16 +809,16 @@ def r6(prog, ev, rep, slice_fn, slice_args, index_fn, index_args):
                     abstain.append("%s walk: init `%s`, bound `%s` are not the RFC's text and region analysis is undecided (%s)" % (direction, show(init)[:100], show(bound)[:100], u))
             want = model["step"]
             if stepn == want:
-                rep.ok("C11-R6", "%s/step" % key, where, show(want)[:150]); decided += 1
+                rep.ok(RID[0], "%s/step" % key, where, show(want)[:150]); decided += 1
             elif shape(stepn) == shape(want) or stepn[0] == "const":
-                rep.bad("C11-R6", "%s/step" % key, where, "increment of the %s-step walk deviates from RFC 9535 2.3.4.2.2 at %s" % (
+                rep.bad(RID[0], "%s/step" % key, where, "increment of the %s-step walk deviates from RFC 9535 2.3.4.2.2 at %s" % (
                     "positive" if direction == "pos" else "negative", diff(stepn, want) or "?"))
                 decided += 1
             else:
                 abstain.append("%s/step `%s` has a different shape than the RFC's `%s`" % (direction, show(stepn)[:120], show(want)[:120]))
             # the element emitted is the one at the counter
             if w["fetch"]:
-                rep.ok("C11-R6", key + "/element", where, "element fetched at the counter"); decided += 1
+                rep.ok(RID[0], key + "/element", where, "element fetched at the counter"); decided += 1
             else:
                 abstain.append("element fetch is not at the walk's counter")
     for a in abstain:
@@ -855,10 +909,10 @@ def index_region_check(prog, ev, rep, index_fn, index_args, int_bounds):
                             pt["i"], pt["len"], oname, pwl.leval(form, pt))
         key = "%s|site:%s" % (index_fn, show(ix))
         if found:
-            rep.bad("C11-R6", key, where, "index selector deviates from RFC 9535 2.3.3.2: " + found)
+            rep.bad(RID[0], key, where, "index selector deviates from RFC 9535 2.3.3.2: " + found)
             problems.append(found)
         else:
-            rep.ok("C11-R6", key, where, "under its guards %s the fetch `a[%s]` is exactly the RFC's element" % ([show(g) for g in guards], show(ix)))
+            rep.ok(RID[0], key, where, "under its guards %s the fetch `a[%s]` is exactly the RFC's element" % ([show(g) for g in guards], show(ix)))
     # completeness: wherever the RFC selects an element, some site's guards hold
     for rname, (rc, want) in R.items():
         found = None
@@ -876,7 +930,65 @@ def index_region_check(prog, ev, rep, index_fn, index_args, int_bounds):
                     found = "index %d on an array of %d elements selects nothing, RFC 9535 selects element %d" % (pt["i"], pt["len"], pwl.leval(want, pt))
         key = "%s|%s" % (index_fn, rname)
         if found:
-            rep.bad("C11-R6", key, prog.loc_of(index_fn), "index selector deviates from RFC 9535 2.3.3.2: " + found)
+            rep.bad(RID[0], key, prog.loc_of(index_fn), "index selector deviates from RFC 9535 2.3.3.2: " + found)
         else:
-            rep.ok("C11-R6", key, prog.loc_of(index_fn), "every %s in-range index reaches an element fetch" % rname)
+            rep.ok(RID[0], key, prog.loc_of(index_fn), "every %s in-range index reaches an element fetch" % rname)
     rep.extra["c11_r6_index_region_analysis"] = stats
+
+
+# ------------------------------------------------------------------------------------------- R7
+WORK_EXCESS = 2 ** 32
+
+
+def r7(prog, ev, rep, slice_fn, slice_args):
+    rep.rule("C11-R7", "termination in time proportional to the array: the number of positions a slice walk visits is bounded by the "
+             "array length, not by how far start/end overshoot it -- in no region of (len, start, end) does the walk's extent "
+             "|bound - init| exceed len by more than 2^32 (with bounds near 2^53 such a walk does not terminate in practice)", floor=2)
+    EV[0] = ev
+    okv, _sites = shared.all_int_slots_validated(prog, ev)
+    from vflib.intervals import IJSON
+    lo, hi = IJSON if okv else (-2 ** 63, 2 ** 63 - 1)
+    names = {}
+    for slot, nm in ((0, "start"), (1, "end"), (2, "step")):
+        i = slice_args[slot]
+        names[Tm("param", (i, c08._pname(prog, slice_fn, i)))] = nm
+    sites = ev.sited(slice_fn)
+    gets = [s for s in sites if s["kind"] == "call" and (s["term"].a[0] in ("core::slice::<impl [T]>::get",) or s["term"].a[0].endswith("Index<I>>::index"))]
+    arr = None
+    for g in gets:
+        arr = g["term"].a[1]
+    abstain = []
+    model = rfc_model()
+    walks = loop_walks(prog, ev, sites, names, arr, gets, abstain) + range_walks(prog, ev, sites, names, arr, abstain)
+    for w in walks:
+        direction = "pos" if w["guard"] == model["pos"]["guard"] else "neg" if w["guard"] == model["neg"]["guard"] else None
+        if direction is None or w["resolve"] is None:
+            rep.note("C11-R7 abstains: walk with an unrecognised guard or stride"); continue
+        key = "%s|%s/work" % (slice_fn, direction)
+        try:
+            init, bound, stepn, cond_problem = w["resolve"](direction)
+            if bound is None:
+                raise pwl.Undecided("no stop bound")
+            found = None
+            nq = 0
+            for ps, pe in ((True, True), (True, False), (False, True), (False, False)):
+                present = {"start": ps, "end": pe, "step": True}
+                i_t, b_t = resolve(init, present), resolve(bound, present)
+                order = ["start", "end", "len"]
+                domain = [{"len": 1}, {"len": -1, 1: 2 ** 47}]
+                for v in ("start", "end"):
+                    domain += [{v: 1, 1: -lo}, {v: -1, 1: hi}]
+                for (ci, ri), (cb, rb) in pwl.product(pwl.cases(i_t), pwl.cases(b_t)):
+                    extent = pwl.ladd(rb, ri, -1) if direction == "pos" else pwl.ladd(ri, rb, -1)
+                    q = pwl.ladd(pwl.ladd(extent, {"len": 1}, -1), {1: -WORK_EXCESS})
+                    nq += 1
+                    verdict, pt = pwl.decide(domain + ci + cb + [q], order)
+                    if verdict == "point" and found is None:
+                        found = "for `[%s:%s:%s]` on an array of %d elements the walk runs from %d to %d: %d positions" % (
+                            pt["start"] if ps else "", pt["end"] if pe else "", "1" if direction == "pos" else "-1", pt["len"],
+                            pwl.leval(ri, pt), pwl.leval(rb, pt), abs(pwl.leval(rb, pt) - pwl.leval(ri, pt)))
+            rep.check(found is None, "C11-R7", key, w["where"], "|bound - init| <= len + 2^32 in all regions (%d queries)" % nq,
+                      "the %s-step walk is not bounded by the array length: %s; with bounds near 2^53 the evaluation does not terminate in practice" % (
+                          "positive" if direction == "pos" else "negative", found))
+        except pwl.Undecided as u:
+            rep.note("C11-R7 abstains on the %s walk: %s" % (direction, u))
